@@ -121,6 +121,9 @@ def model_eq(f1, c1, f2, c2):
     return k1 == k2
 
 
+WIDE = [0, 1, 0x7fffffff, 0x80000000, 0xffffffff, 0x100000000, 5 << 30, 0x7fffffffffffffff, 0x8000000000000000, 0xffffffff81000000, 0xfffffffffffffff8, 0xffffffffffffffff]
+
+
 def run(ctx):
     oblig = common.prepare(ctx)
     if oblig is None:
@@ -154,6 +157,11 @@ def run(ctx):
             for i in range(1, len(syms)):
                 if rng.random() < 0.6:
                     e.patch_symbol(i, info=(rng.randrange(16) << 4) | rng.randrange(16), other=(rng.choice([0, 0x20, 0x60, 0x80, 0xe0]) | rng.randrange(4)))
+                # sizes and (for absolute symbols, which no loader moves) values across the whole 64-bit range
+                if rng.random() < 0.4:
+                    e.patch_symbol(i, size=rng.choice(WIDE))
+                if syms[i]["shndx"] == 0xfff1 and rng.random() < 0.8:
+                    e.patch_symbol(i, value=rng.choice(WIDE))
             e.set_machine(mcode)
             p = os.path.join(d, "sym%d-%s.o" % (k, mname))
             e.save(p)
